@@ -82,3 +82,7 @@ Fixpoint decode_pairs (h : list Z) : list Z :=
 Definition clean_hex (h : list Z) : list Z :=
   let f := filter is_hexdigit h in if Nat.even (length f) then f else 48 :: f.
 Definition unpair (ps : list (Z * Z)) : list Z := flat_map (fun p => [fst p; snd p]) ps.
+
+(* packByte / unpackByte: the format is a bytes object of ASCII digits, one digit (1..8) per field *)
+Definition byte_fmt (ws : list Z) : list Z := map (fun w => 48 + w) ws.
+Definition wf_byte_fmt (ws : list Z) : Prop := Forall (fun w => 1 <= w <= 8) ws /\ py_sum ws <= 8.
